@@ -17,7 +17,9 @@
 #include "vf/trace.hpp"
 
 #include <future>
+#include <algorithm>
 #include <memory>
+#include <random>
 #include <set>
 
 using iora::core::ThreadPool;
@@ -320,6 +322,9 @@ static int cmdDfs(int argc, char **argv)
   {
     if ((int)wave.size() > maxExec - total)
     {
+      // truncation keeps a seeded random sample of the frontier (not its first entries), so that late preemption points
+      // are explored as often as early ones
+      std::shuffle(wave.begin(), wave.end(), std::mt19937(12345u + (unsigned)total));
       wave.resize(maxExec - total);
       truncated = true;
     }
